@@ -161,7 +161,7 @@ def determinism(c):
     tr = os.path.join(c.scratch, "det.ndjson")
     targs = ["determinism", "-n", n, "-runs", runs, "-out", tr]
     rep = vf.run_harness("vh-rel", targs, env={"VERIF_SEED": c.seed}, timeout=3400)
-    c.add_replay(rep, "scenarios (reward delegators paid to 4 new accounts per block, stakes, sends) executed %d times each + wall-clock scenario" % runs)
+    c.add_replay(rep, "scenarios (reward delegators paid to 12 new accounts, stakes, sends) executed %d times each + wall-clock scenario" % runs)
     c.add("evaluations", rep["steps"])
     res = _validate(c, "TraceRel_C12.cfg", tr, "repeat and delayed runs", ["vh-rel"] + [str(a) for a in targs], n)
     for l in open(tr):
@@ -237,7 +237,7 @@ PROPERTIES = {
             "technique": "repeat-run and delayed-run comparison of real nodes in fresh processes, comparison traces validated by TLC (TraceRel.tla); design model ChainRel",
             "text": "Identical chain data executed several times in fresh processes (Go map order and scheduling vary) and once with a "
                     "pause that moves the wall clock across a jail-period boundary must give identical codes, data and app hashes.",
-            "note": NOTE + " Sampling, not exhaustive: nondeterminism that needs a rare map order may be missed; each scenario pays four new delegator accounts per block to make map-order effects likely."},
+            "note": NOTE + " Sampling, not exhaustive: nondeterminism that needs a rare map order may be missed; each scenario pays twelve new delegator accounts to make map-order effects likely."},
     "C43": {"run": export_import, "level": "model_checking", "engine": "rel", "design_ref": "DESIGN.md section 6 C43",
             "engine_path": "spec/rel + harness/cmd/vh-rel + checks/rel.py",
             "technique": "export/import of real application state in separate processes; projections compared by TLC against TraceRel.tla's C43 predicate with named known-finding exclusions",
